@@ -1,1 +1,55 @@
-import PyshaclModel
+/-
+  C11 — allow_infos / allow_warnings only relax the verdict.
+  Model-level theorems for every shapes graph (any severities at any nesting level), data graph and
+  focus selection; complete runs (abort_on_first off — its interaction is C12).
+-/
+import PyshaclProofs.WaiverIndep
+namespace Pyshacl.C11
+open Pyshacl
+
+/-- the options never change which results are reported, nor whether / how the run fails -/
+theorem results_option_independent (o : Opts) (i w : Bool) (hab : o.abortOnFirst = false)
+    (sg dg : Graph) (rx : Regex) (focus : List Term) :
+    Out.results (runValidate (o.withWaivers i w) sg dg rx focus []) = Out.results (runValidate o sg dg rx focus []) :=
+  runValidate_results_indep o i w hab sg dg rx focus
+
+/-- with an option on, the verdict is `conforms` exactly when every result has a waived severity -/
+theorem verdict_with_waivers (o : Opts) (sg dg : Graph) (rx : Regex) (focus : List Term)
+    (conf : Bool) (rs : List Result) (h : runValidate o sg dg rx focus [] = .ok (conf, rs)) :
+    conf = true ↔ ∀ r ∈ rs, r.severity ∈ allowedSeverities o := by
+  rw [runValidate_verdict o sg dg rx focus conf rs h]
+  unfold allWaived
+  simp [List.all_eq_true]
+
+/-- conforms(default) → conforms(allow_infos) → conforms(allow_warnings) -/
+theorem relax_chain (o : Opts) (hab : o.abortOnFirst = false) (sg dg : Graph) (rx : Regex) (focus : List Term)
+    (c0 c1 c2 : Bool) (r0 r1 r2 : List Result)
+    (h0 : runValidate (o.withWaivers false false) sg dg rx focus [] = .ok (c0, r0))
+    (h1 : runValidate (o.withWaivers true false) sg dg rx focus [] = .ok (c1, r1))
+    (h2 : runValidate (o.withWaivers false true) sg dg rx focus [] = .ok (c2, r2)) :
+    (c0 = true → c1 = true) ∧ (c1 = true → c2 = true) := by
+  have e01 : r0 = r1 := by
+    have a := runValidate_results_indep o false false hab sg dg rx focus
+    have b := runValidate_results_indep o true false hab sg dg rx focus
+    rw [h0] at a; rw [h1] at b; rw [← b] at a; simpa [Out.results] using a
+  have e12 : r1 = r2 := by
+    have a := runValidate_results_indep o true false hab sg dg rx focus
+    have b := runValidate_results_indep o false true hab sg dg rx focus
+    rw [h1] at a; rw [h2] at b; rw [← b] at a; simpa [Out.results] using a
+  subst e01; subst e12
+  rw [runValidate_verdict _ sg dg rx focus c0 r0 h0, runValidate_verdict _ sg dg rx focus c1 r0 h1,
+    runValidate_verdict _ sg dg rx focus c2 r0 h2]
+  constructor
+  · exact allWaived_mono _ _ r0 (by intro t ht; simp [allowedSeverities, Opts.withWaivers] at ht)
+  · exact allWaived_mono _ _ r0 (by
+      intro t ht; simp [allowedSeverities, Opts.withWaivers] at ht ⊢; exact Or.inl ht)
+
+/-! non-vacuity: the repaired defect — sh:not of an Info-severity shape — under allow_infos -/
+def exN (s : String) : Term := .iri ("http://ex.test/" ++ s)
+def sgNot : Graph :=
+  [⟨exN "S", rdfType, shNodeShape⟩, ⟨exN "S", shTargetNode, exN "a"⟩, ⟨exN "S", shNot, exN "I"⟩,
+   ⟨exN "I", rdfType, shNodeShape⟩, ⟨exN "I", shSeverity, shInfo⟩, ⟨exN "I", sh "class", exN "C"⟩]
+example : (runValidate {} sgNot [] (fun _ _ _ => none) [] []).toOption.map (·.1) = some true := by decide
+example : (runValidate { allowInfos := true } sgNot [] (fun _ _ _ => none) [] []).toOption.map (·.1) = some true := by decide
+
+end Pyshacl.C11
